@@ -16,6 +16,7 @@
 (*   if        <if test="..">                          no     yes          *)
 (*   reuse     <reuse href="#t" a="1"/>                yes    (target)     *)
 (*   specs     <specs>                                 no     yes          *)
+(*   config    <config loop-limit=".." ../>  (loc: << <<"ll", 2>>, .. >>)      *)
 (*                                                                         *)
 (* Values are small naturals.  Expressions:                                *)
 (*   [t:"lit",v]  literal          [t:"var",x]  $x                         *)
